@@ -23,6 +23,8 @@ type Env struct {
 	depth      int
 	localsOK   bool
 	loopHeader *ssa.BasicBlock
+	probe      map[string]*Term // quantifier probe pass: variable name -> offset of the first slice it indexes
+	head       *State           // loop-head snapshot (for athead(e) in ghost updates and invariants)
 }
 
 type nilVal struct{}
@@ -129,7 +131,11 @@ func (env *Env) eval(e *SExpr) TV {
 		if n.sink == nil {
 			n.sink = env.cur
 		}
-		return n.eval(e.Args[0])
+		r := n.eval(e.Args[0])
+		if sl, ok := r.V.(Sl); ok {
+			r.V = OldSl{sl, env.old} // old(s)[i], firstIndex(old(s), v) read the OLD contents, not just the old header
+		}
+		return r
 	case "sel":
 		// package-qualified constant?
 		if e.Args[0].Kind == "ident" {
@@ -147,7 +153,7 @@ func (env *Env) eval(e *SExpr) TV {
 		return env.index(base, idx)
 	case "slice":
 		base := env.eval(e.Args[0])
-		s, ok := base.V.(Sl)
+		s, sH, ok := asSl(base.V)
 		if !ok {
 			sfail("slicing of non-slice %s", e.Args[0])
 		}
@@ -159,7 +165,11 @@ func (env *Env) eval(e *SExpr) TV {
 		if e.Args[2] != nil {
 			hi = env.evalInt(e.Args[2])
 		}
-		return TV{Sl{s.Ref, tAdd(s.Off, lo), tSub(hi, lo), tSub(s.Cap, lo)}, base.T}
+		res := Sl{s.Ref, linNorm(tAdd(s.Off, lo)), linNorm(tSub(hi, lo)), linNorm(tSub(s.Cap, lo))}
+		if sH != nil {
+			return TV{OldSl{res, sH}, base.T}
+		}
+		return TV{res, base.T}
 	case "unop":
 		x := env.eval(e.Args[0])
 		sc := x.V.(Sc)
@@ -215,6 +225,8 @@ func (env *Env) ident(name string) TV {
 		c := env.ex.ctx.Const("idperm", arrSort(SInt, SInt))
 		env.ex.ctx.Axiom("(forall ((i Int)) (= (select idperm i) i))")
 		return TV{Sc{c}, nil}
+	case "emptyset":
+		return TV{Sc{constArray(arrSort(SInt, SBool), tFalse)}, nil}
 	case "MaxUint64":
 		return mathInt(bigLit(new(big.Int).Sub(pow2(64), big.NewInt(1))))
 	case "MaxInt64":
@@ -344,10 +356,42 @@ func (env *Env) selectField(base TV, name string) TV {
 
 func (env *Env) index(base, idx TV) TV {
 	i := idx.V.(Sc).T
+	var oldH *State
+	if o, ok := base.V.(OldSl); ok {
+		base.V = o.Sl
+		oldH = o.H
+	}
 	switch b := base.V.(type) {
 	case Sl:
 		et := under(base.T).(*types.Slice).Elem()
-		return TV{env.loadSpec(env.cur, elemLoc(b, et, i)), et}
+		if env.probe != nil {
+			// record the offset of the first slice a probed variable indexes directly (coefficient 1, nothing else symbolic)
+			coef := map[string]*big.Int{}
+			k := new(big.Int)
+			if linCollect(i.S, big.NewInt(1), coef, k) {
+				nz := 0
+				pv := ""
+				for a, c := range coef {
+					if c.Sign() != 0 {
+						nz++
+						if c.Cmp(big.NewInt(1)) == 0 {
+							pv = a
+						}
+					}
+				}
+				if nz == 1 && pv != "" {
+					if slot, isProbe := env.probe[pv]; isProbe && slot == nil && !strings.Contains(b.Off.S, "probe!q") {
+						off := b.Off
+						env.probe[pv] = &off
+					}
+				}
+			}
+		}
+		hs := env.cur
+		if oldH != nil {
+			hs = oldH
+		}
+		return TV{env.loadSpec(hs, elemLoc(b, et, i)), et}
 	case Ar:
 		at := under(base.T).(*types.Array)
 		return TV{env.cur.navGet(b, base.T, []Step{{IsIdx: true, Idx: i}}), at.Elem()}
@@ -365,6 +409,45 @@ func (env *Env) index(base, idx TV) TV {
 }
 
 func (env *Env) quant(e *SExpr) TV {
+	// Pass 1 (probe): find, for each ranged variable, the offset of the first slice it indexes directly. The
+	// variable is then made to range over absolute backing-array positions (j = a - off), so that s[j] is
+	// select(arr, a): instantiation by matching then works across reslicing and in-place shifts.
+	bases := map[string]Term{}
+	if env.probe == nil {
+		p := env.child()
+		p.inQuant++
+		p.probe = map[string]*Term{}
+		any := false
+		for _, v := range e.Vars {
+			if v.Lo != nil && v.Type != "bool" {
+				pn := "probe!q_" + sanitize(v.Name)
+				p.vars[v.Name] = TV{Sc{Term{pn, SInt}}, nil}
+				p.probe[pn] = nil
+				any = true
+			} else {
+				p.vars[v.Name] = TV{Sc{Term{"probe!q_x_" + sanitize(v.Name), SInt}}, nil}
+			}
+		}
+		if any {
+			func() {
+				defer func() {
+					if r := recover(); r != nil {
+						if _, ok := r.(specErr); !ok {
+							if _, ok2 := r.(unsupported); !ok2 {
+								panic(r)
+							}
+						}
+					}
+				}()
+				p.eval(e.Args[0])
+			}()
+			for _, v := range e.Vars {
+				if b := p.probe["probe!q_"+sanitize(v.Name)]; b != nil {
+					bases[v.Name] = *b
+				}
+			}
+		}
+	}
 	n := env.child()
 	n.inQuant++
 	var decls []string
@@ -377,10 +460,21 @@ func (env *Env) quant(e *SExpr) TV {
 			sort = SBool
 		}
 		bt := Term{name, sort}
+		if base, ok := bases[v.Name]; ok {
+			bt = linNorm(tSub(Term{name, SInt}, base))
+		}
 		n.vars[v.Name] = TV{Sc{bt}, nil}
 		decls = append(decls, fmt.Sprintf("(%s %s)", name, sort))
 		if v.Lo != nil {
-			guards = append(guards, tLe(n.evalInt(v.Lo), bt), tLt(bt, n.evalInt(v.Hi)))
+			// bounds are evaluated outside the new binder (they may use definitional extensions such as firstIndex)
+			b := *n
+			b.inQuant = env.inQuant
+			if base, ok := bases[v.Name]; ok {
+				a := Term{name, SInt}
+				guards = append(guards, tLe(linNorm(tAdd(b.evalInt(v.Lo), base)), a), tLt(a, linNorm(tAdd(b.evalInt(v.Hi), base))))
+			} else {
+				guards = append(guards, tLe(b.evalInt(v.Lo), bt), tLt(bt, b.evalInt(v.Hi)))
+			}
 		}
 		switch v.Type {
 		case "uint64", "uint":
@@ -564,6 +658,9 @@ func (env *Env) call(e *SExpr) TV {
 	switch name {
 	case "len":
 		a := env.eval(e.Args[0])
+		if o, ok := a.V.(OldSl); ok {
+			a.V = o.Sl
+		}
 		switch v := a.V.(type) {
 		case Sl:
 			return mathInt(v.Len)
@@ -582,7 +679,7 @@ func (env *Env) call(e *SExpr) TV {
 		sfail("len of %T", a.V)
 	case "cap":
 		a := env.eval(e.Args[0])
-		if v, ok := a.V.(Sl); ok {
+		if v, _, ok := asSl(a.V); ok {
 			return mathInt(v.Cap)
 		}
 		sfail("cap of %T", a.V)
@@ -628,7 +725,7 @@ func (env *Env) call(e *SExpr) TV {
 		return boolTV(tGt(ref, env.old.allocTop))
 	case "ref":
 		a := env.eval(e.Args[0])
-		if v, ok := a.V.(Sl); ok {
+		if v, _, ok := asSl(a.V); ok {
 			return mathInt(v.Ref)
 		}
 		return mathInt(a.V.(Sc).T)
@@ -679,6 +776,48 @@ func (env *Env) call(e *SExpr) TV {
 			return boolTV(tEq(iv.Typ, env.ex.typeID(t)))
 		}
 		return TV{Sc{iv.Val}, t}
+	case "firstIndex":
+		// firstIndex(s, v): the least index at which slice s holds scalar v, or len(s) if none. A definitional
+		// extension: the index always exists, so a fresh constant with the defining property is introduced.
+		sv := env.eval(e.Args[0])
+		sl, slH, ok := asSl(sv.V)
+		if !ok || env.inQuant > 0 {
+			sfail("firstIndex(slice, value) expected outside quantifiers")
+		}
+		v := env.eval(e.Args[1]).V.(Sc).T
+		et := under(sv.T).(*types.Slice).Elem()
+		elemAt := func(i Term) Term {
+			n := env.child()
+			n.inQuant++
+			hs := env.cur
+			if slH != nil {
+				hs = slH
+			}
+			return n.loadSpec(hs, elemLoc(sl, et, i)).(Sc).T
+		}
+		probe := elemAt(Term{"m!fi", SInt})
+		ck := "firstIndex|" + probe.S + "|" + sl.Len.S + "|" + v.S
+		p, seen := env.ex.fidx[ck]
+		if !seen {
+			p = env.ex.ctx.Fresh("fidx", SInt)
+			env.ex.fidx[ck] = p
+		}
+		m := Term{"m!fi", SInt}
+		def := tAnd(tLe(intLit(0), p), tLe(p, sl.Len), tImp(tLt(p, sl.Len), tEq(elemAt(p), v)),
+			Term{fmt.Sprintf("(forall ((m!fi Int)) %s)", tImp(tAnd(tLe(intLit(0), m), tLt(m, p)), tNot(tEq(probe, v))).S), SBool})
+		env.assumeSide(def)
+		return mathInt(p)
+	case "athead":
+		// athead(e): e in the state at the head of the current loop iteration
+		if env.head == nil {
+			sfail("athead() outside a loop back-edge context")
+		}
+		n := env.child()
+		n.cur = env.head
+		if n.sink == nil {
+			n.sink = env.cur
+		}
+		return n.eval(e.Args[0])
 	case "atlock":
 		// atlock(e): e in the state right after the most recent lock acquisition on this path (old(e) if none)
 		n := env.child()
